@@ -24,6 +24,8 @@ TIMES = 'history/times.py'; HFILES = 'history/files.py'; TNETS = 'server/tnetstr
 POLL = 'server/enip/poll.py'; DEFAULTS = 'server/enip/defaults.py'; NETWORK = 'server/network.py'
 
 VARIANTS = [
+    V( 'merge-test-with-a-local-edge', MODBUS, "if ( address < base + length\n or ( address // 10000 == base // 10000\n and address < base + length + ( reach or 1 ))):", "edge		= ( base // 10000 + 1 ) * 10000\n            if ( address < base + length\n                 or address < min( edge, base + length + ( reach or 1 ))):", silent=[ 'M-BANK', 'M-EXTENT' ] ),
+    V( 'extent-clipped-at-block-edge', MODBUS, "length = max( length, address + count - base )", "length	= max( length, min( ( base // 10000 + 1 ) * 10000, address + count ) - base )", fires=[ 'M-EXTENT' ] ),
     V( 'tnet-list-elements-default-encoding', TNETS, "payload = b''.join( dump(i, encoding=encoding) for i in data )", "payload = b''.join( map( dump, data ))", fires=[ 'T-TNET' ] ),
     V( 'tnet-list-parse-default-encoding', TNETS, "value, extra = parse(extra, encoding=encoding)\n result.append(value)", "value, extra = parse(extra)\n        result.append(value)", fires=[ 'T-TNET' ] ),
     V( 'tnet-empty-payload-text', TNET, "src = b'' if raw not in data else (\n data[raw].tostring() if sys.version_info[0] < 3\n else data[raw].tobytes() )", "src			= data[raw].tobytes() if raw in data else ''", fires=[ 'T-TNET' ] ),
